@@ -1,6 +1,8 @@
 package main
 
 import (
+	"strings"
+	"runtime/debug"
 	"flag"
 	"fmt"
 	"os"
@@ -93,7 +95,26 @@ func main() {
 		w := loadWorld(*repo, c[0], c[1])
 		r.Inv["packages["+name+"]"] = len(w.Pkgs)
 		r.Inv["module_functions["+name+"]"] = len(w.ModFns)
-		fn(w, r)
+		func() {
+			// a rule that cannot cope with the shape of this tree must not take the whole check down:
+			// it becomes a "cannot decide" verdict (the check still fails, naming the rule's stack top)
+			defer func() {
+				if e := recover(); e != nil {
+					if be, ok := e.(brokenError); ok {
+						panic(be)
+					}
+					where := ""
+					for _, l := range strings.Split(string(debug.Stack()), "\n") {
+						if strings.Contains(l, "/checker/") && !strings.Contains(l, "main.go") && !strings.Contains(l, "/vendor/") {
+							where = strings.TrimSpace(l)
+							break
+						}
+					}
+					r.Undecided(id+".INTERNAL", "analysis aborted", "", fmt.Sprintf("the analysis could not cope with this tree (%v at %s): no verdict", e, where))
+				}
+			}()
+			fn(w, r)
+		}()
 		r.applyFloors()
 		r.Inv["paths_enumerated["+name+"]"] = w.statPaths
 		r.Inv["path_enumerations["+name+"]"] = w.statPathFns
